@@ -76,6 +76,9 @@ def arg_source(expr, params):
     if not hits and ("self" in ids):
         return "self"
     if not hits:
+        # a local of the wrapper (its name is the author's choice) or a literal expression
+        if re.fullmatch(r"[a-z_][a-z_0-9]*", e):
+            return "lit:local"
         return "lit:" + re.sub(r"\s+", "", e)[:40]
     return "?" + "+".join(hits)
 
@@ -144,7 +147,12 @@ def lock_aliases(cdir):
             for m in re.finditer(r"\bfn\s+(\w+)\s*\(\s*\)\s*->[^{;]*\{", src):
                 b0 = m.end() - 1
                 body = re.sub(r"\s+", "", src[b0 + 1:match_brace(src, b0)])
-                if re.fullmatch(r'TZ_PROVIDER\.lock\(\)\.map_err\(\|_\|TemporalError::general\("[^"]*"\)\)', body):
+                # `TZ_PROVIDER.lock().map_err(|_| TemporalError::general("…"))`, or the same as a `match` on the
+                # lock result: nothing is called but the lock, the error constructor and Ok / Err
+                if body.count("TZ_PROVIDER.lock()") != 1:
+                    continue
+                calls = set(re.findall(r"(\w+)\(", body))
+                if calls <= {"lock", "map_err", "Ok", "Err", "general"} and "?" not in body and "unwrap" not in body:
                     out.append(m.group(1))
     return out
 
@@ -214,7 +222,7 @@ def main():
             body = clean[b0:match_brace(clean, b0) + 1]
             seen = set()
             # `field: other.src…`  (struct literal; whitespace and line breaks allowed after `other`)
-            for fm in re.finditer(r"\b(\w+)\s*:\s*other\s*\.\s*(\w+)", body):
+            for fm in re.finditer(r"(?<!:)\b(\w+)\s*:(?!:)\s*(?:[\w:]+\s*\(\s*)*other\s*\.\s*(\w+)", body):
                 if fm.group(1) not in ("Error",):
                     fields.append((ffi, fm.group(1), fm.group(2))); seen.add(fm.group(1))
             # `<local>.field = … other.src …` (any receiver name; helper calls such as `convert(other.src)?` allowed)
@@ -225,6 +233,12 @@ def main():
             local = {}
             for fm in re.finditer(r"\blet\s+(?:mut\s+)?(?:Some\(\s*)?(\w+)\s*\)?\s*(?::[^=;]+)?=(?!=)([^;{]*?\bother\s*\.\s*(\w+)[^;{]*)[;{]", body):
                 local.setdefault(fm.group(1), fm.group(3))
+            # `let ffi::X { a, b: c, .. } = other;` binds locals to the fields of the same (or the given) name
+            for dm in re.finditer(r"\blet\s+(?:ffi::)?\w+\s*\{([^}]*)\}\s*=\s*other\s*;", body):
+                for part in split_top(dm.group(1)):
+                    pm = re.match(r"^(\w+)\s*(?::\s*(?:mut\s+)?(\w+))?$", part)
+                    if pm and pm.group(1) != "..":
+                        local.setdefault(pm.group(2) or pm.group(1), pm.group(1))
             # … used by the shorthand `Self { x, … }`, by `field: x` or by `<local>.field = … x …`
             for x, src in local.items():
                 for fm in re.finditer(r"[{,]\s*%s\s*(?=[,}])" % re.escape(x), body):
